@@ -196,4 +196,25 @@ theorem C32_context_rejects (ty ver h f r : Nat) (fs : List Entry) (ins outs : L
 
 example : PolicyCtx.contextPolicies 2 0 4 9 9 [⟨some 70, 4⟩] [79] [70] = .fz (.receive 0) := by decide
 
+/-- **Every path into the context check** (regenerated): `ContextCheck` is called from exactly one
+    place, `BlockChain.CheckTransactionContext`, which hands it the caller's block height and the
+    chain's own parameters; and every caller of that function passes the height the transaction is
+    validated **for** — block validation the block's height, mempool admission and clean-up the
+    best height + 1, block assembly the next block height.  (The `e2e` ops execute the first three
+    paths and the RPC path on a real node.) -/
+theorem C32_gen_context_paths :
+    Gen.C32.contextCheckCallers = ["blockchain.BlockChain.CheckTransactionContext para"] ∧
+    Gen.C32.contextParameters = ["tx", "blockHeight", "timeStamp", "b.chainParams", "b", "proposalsUsedAmount"] ∧
+    Gen.C32.contextCallSites.all (fun s => ["block.Height", "bestHeight + 1", "nextBlockHeight"].contains s.2) = true ∧
+    (Gen.C32.contextCallSites.map (·.1)).contains "blockchain.BlockChain.checkTxsContext" = true ∧
+    (Gen.C32.contextCallSites.map (·.1)).contains "mempool.TxPool.appendToTxPool" = true := by decide
+
+/-- **No command-line route**: the two heights, the frozen list and the net name carry no `screw:`
+    tag, so no command-line flag is bound to them; the configuration file is the only way to set
+    them, and `SetupConfig` overrides it (`C32_gen_setup_order`). -/
+theorem C32_gen_no_cli_flags :
+    Gen.C32.policyFieldTags =
+      [("CrossChainUTXOFreezeHeight", ""), ("CrossChainUTXORestrictionHeight", ""),
+       ("FrozenAddresses", "json:\"FrozenAddresses\""), ("ActiveNet", "json:\"ActiveNet\"")] := by decide
+
 end ElaVerif.C32
